@@ -257,6 +257,11 @@ class CEMILData(CEMIData):
         )
 
         _npdu_len = raw[6]
+        if _npdu_len > MAX_NPDU_LENGTH:
+            raise UnsupportedCEMIMessage(
+                f"NPDU length {_npdu_len} is reserved as escape code "
+                f"from {src_addr} in CEMI: {raw.hex()}"
+            )
         _tpdu = raw[7:]
         _apdu = bytes([_tpdu[0] & 0b11]) + _tpdu[1:]  # clear TPCI bits
         if len(_apdu) != (_npdu_len + 1):  # TCPI octet not included in NPDU length
